@@ -280,6 +280,11 @@ func (sc *Scope) lookupIdent(name string) (specVal, bool) {
 		if name == "result" && len(sc.results) >= 1 {
 			return specVal{t: sc.results[0], ty: res.At(0).Type()}, true
 		}
+		for i := 0; i < res.Len() && i < len(sc.results); i++ {
+			if name == fmt.Sprintf("result%d", i) {
+				return specVal{t: sc.results[i], ty: res.At(i).Type()}, true
+			}
+		}
 		for i := 0; i < res.Len(); i++ {
 			if res.At(i).Name() == name && i < len(sc.results) {
 				return specVal{t: sc.results[i], ty: res.At(i).Type()}, true
@@ -815,6 +820,8 @@ var specBuiltins = map[string]builtinSpec{
 	"fmtx":        {"fmtx", []Sort{SInt}, SString, tString},
 	"itoa":        {"itoa", []Sort{SInt}, SString, tString},
 	"parsehex":    {"parsehex", []Sort{SString}, SInt, tInt},
+	"splitcount":  {"splitcount", []Sort{SString, SString}, SInt, tInt},
+	"splitpart":   {"splitpart", []Sort{SString, SString, SInt}, SString, tString},
 }
 
 func (e *Engine) declBuiltin(name string) {
